@@ -655,13 +655,11 @@ fn md_contract_violations(text: &str, evs: &[MdEv]) -> Vec<String> {
             _ => None,
         };
         if let Some((n, nonempty)) = need {
-            // structural marker of finding FC02b: the event is an exact repeat (arm, payload length, range) of an earlier leaf event
-            let rep_marker = if e.re > e.rs && evs[..i].iter().any(|p| p.code == e.code && p.n == e.n && p.rs == e.rs && p.re == e.re) { " [repeated event]" } else { "" };
             if tb > e.rs {
-                bad.push(format!("K2 leaf event {i} ({name}) starts at byte {} before an earlier range start {tb}{rep_marker}", e.rs));
+                bad.push(format!("K2 leaf event {i} ({name}) starts at byte {} before an earlier range start {tb}", e.rs));
             }
             if hi > e.rs {
-                bad.push(format!("K2 leaf event {i} ({name}) starts at byte {} inside an earlier leaf range ending at {hi}{rep_marker}", e.rs));
+                bad.push(format!("K2 leaf event {i} ({name}) starts at byte {} inside an earlier leaf range ending at {hi}", e.rs));
             }
             let have = text[e.rs..e.re].chars().count();
             if n > have {
@@ -691,9 +689,6 @@ fn case_markdown(rep: &mut Report, text: &str, ilt: bool, dict: &Arc<FstDictiona
     rep.monitor("md_event_streams_checked", 1);
     rep.monitor("md_events_checked", evs.len() as u64);
     rep.monitor("md_contract_violations", bad.len() as u64);
-    for b in &bad {
-        fail(rep, "md_contract", format!("the pulldown-cmark event stream violates the contract of C02_markdown_glue: {b}"), inp.clone());
-    }
     for e in &evs {
         rep.count(&format!("md_event:{}", MD_EV_NAMES[e.code as usize]));
     }
@@ -705,15 +700,20 @@ fn case_markdown(rep: &mut Report, text: &str, ilt: bool, dict: &Arc<FstDictiona
     // FC02a an empty Code / Math payload; FC02b a leaf event that exactly repeats an earlier one
     let empty_math = evs.iter().any(|e| e.code == 5 && e.n == 0);
     let repeated = evs.iter().enumerate().any(|(i, e)| matches!(e.code, 3..=7) && e.re > e.rs && evs[..i].iter().any(|p| p.code == e.code && p.n == e.n && p.rs == e.rs && p.re == e.re));
+    // FC02b corrupts the whole stream (later events are re-parsed differently the second time): every failure of such a
+    // document carries the marker; FC02a marks only the zero-width Unlintable token and the K3 clause it breaks
     let mark = |class: &str, m: &str| -> String {
-        if class == "zero_width_kind" && empty_math && m.ends_with("of kind X") {
-            format!("{m} [empty math payload]")
-        } else if class == "out_of_order" && repeated {
+        if repeated {
             format!("{m} [repeated pulldown-cmark events]")
+        } else if empty_math && ((class == "zero_width_kind" && m.ends_with("of kind X")) || (class == "md_contract" && m.contains("has an empty payload"))) {
+            format!("{m} [empty math payload]")
         } else {
             m.to_string()
         }
     };
+    for b in &bad {
+        fail(rep, "md_contract", mark("md_contract", &format!("the pulldown-cmark event stream violates the contract of C02_markdown_glue: {b}")), inp.clone());
+    }
     if empty_math {
         rep.count("md_doc_with_empty_math_payload(FC02a)");
     }
@@ -739,7 +739,7 @@ fn case_markdown(rep: &mut Report, text: &str, ilt: bool, dict: &Arc<FstDictiona
             }
             // what the glue theorem states beyond TokInv: EVERY token (zero-width ones too) lies inside the text
             if let Some((i, t)) = ts.iter().enumerate().find(|(_, t)| t.span.end > src.len()) {
-                fail(rep, "out_of_bounds", format!("[markdown parser] token {i} {:?} ({}) ends beyond the text of {} characters", t.span, kind_str(&t.kind), src.len()), inp.clone());
+                fail(rep, "out_of_bounds", mark("out_of_bounds", &format!("[markdown parser] token {i} {:?} ({}) ends beyond the text of {} characters", t.span, kind_str(&t.kind), src.len())), inp.clone());
             }
             if ts.iter().any(|t| t.span.start == t.span.end) {
                 rep.count("md_parse_with_zero_width_token");
@@ -754,7 +754,7 @@ fn case_markdown(rep: &mut Report, text: &str, ilt: bool, dict: &Arc<FstDictiona
         }
         Err(m) => {
             if bad.is_empty() {
-                fail(rep, "md_panic", format!("Markdown::parse panicked on an event stream that meets the contract: {m} at {}", last_panic_location()), inp.clone());
+                fail(rep, "md_panic", mark("md_panic", &format!("Markdown::parse panicked on an event stream that meets the contract: {m} at {}", last_panic_location())), inp.clone());
             } else {
                 rep.count("md_panic_outside_contract");
             }
